@@ -607,6 +607,33 @@ fn floats(out: &mut Vec<Decl>) {
             out.push(tw);
         }
 
+        // E2. const_fn twins with `finite` (every position), deriving Eq/Ord and every entry point
+        for vals in [
+            vec![ValSpec::Finite],
+            vec![ValSpec::Finite, ValSpec::GreaterEq(lit_f(-10.0)), ValSpec::LessEq(lit_f(10.0))],
+            vec![ValSpec::GreaterEq(lit_f(-10.0)), ValSpec::LessEq(lit_f(10.0)), ValSpec::Finite],
+            vec![ValSpec::Less(lit_f(1e30)), ValSpec::Finite, ValSpec::Predicate(f("p_not50", FnForm::Path))],
+        ] {
+            let mut base = std(Decl::new(inner), vals).tag("twin-base");
+            base.default = Some(DefaultSpec { macro_text: "1.5".into(), neutral_text: "1.5".into(), class: "valid".into() });
+            let base = with_full(base);
+            let mut tw = base.clone();
+            tw.const_fn = true;
+            tw.tags = vec!["twin:const_fn".into()];
+            tw.twin_kind = Some("const_fn".into());
+            if let Vals::Std(vs) = &mut tw.vals {
+                for v in vs.iter_mut() {
+                    if let ValSpec::Predicate(fr) = v {
+                        fr.form = FnForm::ConstPath;
+                    }
+                }
+            }
+            tw.const_evals = vec![format!("{ty}::NAN"), format!("{ty}::INFINITY"), "0.0".into(), "-0.0".into(), "50.0".into()];
+            tw.twin_of = Some("PREV".into());
+            out.push(base);
+            out.push(tw);
+        }
+
         // F. single traits
         let singles: Vec<Vec<Tr>> = vec![
             vec![Tr::Debug],
